@@ -15,6 +15,14 @@ def main():
     ap.add_argument("--case", help="run only the named case (debugging)")
     a = ap.parse_args()
     logging.disable(logging.CRITICAL)
+    import signal
+    import multiprocessing
+
+    def _term(sig, frm):
+        for p in multiprocessing.active_children():
+            p.kill()
+        os._exit(143)
+    signal.signal(signal.SIGTERM, _term)
     sys.setrecursionlimit(10000)
     mod = importlib.import_module("props.%s" % a.prop)
     seed = int(os.environ.get("VERIF_SEED", "0") or 0)
